@@ -539,7 +539,7 @@ CHECK = Check(
     rule=(
         "(a) codec round trips decode(encode(x))==x for Parameters/DelayProperties/ResultProperties/RetriesProperties/ArgsBucket/"
         "ResultBucket built from generated fields: durations in [0,100y] at microsecond precision, naive and tz-aware datetimes "
-        "1971-2200, ids from the validators' alphabet, every None/non-None combination. (b) key encodings for pairs of valid keys "
+        "1971-2200, names and ids over the alphabets the validators of the tree under test accept (read off VALID_NAME / VALID_ID at run time), every None/non-None combination. (b) key encodings for pairs of valid keys "
         "(including near-miss pairs differing in one field by one character): Redis mnc/parse/short/full/marker round trips, "
         "injectivity, topic-prefix filter matches only its own topic, AMQP queue names distinct. (c) end to end per broker: Job with "
         "generated settings and arguments (nested JSON, dataclass, pydantic models, dates, durations, tuples), inline or through an "
